@@ -109,6 +109,8 @@ def child_main(spec):
             json.dump(result, f)
 
     patch_kwargs = {"db_path": spec["dir"]} if spec.get("dir") else {}
+    # non-default connect options: what connect() then does not create itself the session creates in the prologue
+    patch_kwargs.update(spec.get("patch_opts") or {})
     if not history:
         state["armed"] = True  # crash points inside the very first connect
     with fakesnow.patch(**patch_kwargs):
@@ -118,6 +120,8 @@ def child_main(spec):
             result["calls_last"] = state["n"]
             result["log"] = state["log"]
         cur = conn.cursor()
+        for s in spec.get("prologue") or []:
+            cur.execute(s)
         for i, s in enumerate(history):
             last = i == len(history) - 1
             if last:
